@@ -98,7 +98,8 @@ Nxt(e) ==
     [] e.ev = "env" -> [s EXCEPT !.target = e.target, !.tk = FALSE, !.tampered = TRUE]
     [] e.ev = "reset" -> [s EXCEPT !.alive = (e.out # "crash"),
                                    !.bel = IF e.out = "crash" THEN "" ELSE IF e.skip THEN e.cur ELSE s.bel]
-    [] e.ev = "reload" -> [s EXCEPT !.alive = (e.out # "crash"), !.bel = "", !.tampered = FALSE]
+    [] e.ev = "reload" -> [s EXCEPT !.alive = (e.out # "crash"), !.bel = "",
+                                    !.tampered = IF e.ok THEN FALSE ELSE s.tampered]  \* (a failed reload learns nothing)
     [] e.ev = "ret" -> [s EXCEPT !.alive = (e.out # "crash"),
                                  !.bel = IF e.out = "crash" THEN "" ELSE IF e.skip THEN e.cur ELSE s.bel]
 
